@@ -31,6 +31,8 @@ def shards(tier):
 
 def gates(c, tier):
     out = [f"never used: {k}" for k in NEEDED if c.get(k, 0) == 0]
+    if c.get("malformed-inputs-interleaved", 0) == 0:
+        out.append("no malformed input interleaved")
     if c.get("oracle_disagreement", 0):
         out.append(f"oracle_disagreement = {c['oracle_disagreement']}")
     return out[:10]
@@ -97,6 +99,13 @@ def run_shard(ctx: Ctx, acc: Acc):
             acc.nontrivial(text)
         if i < 3:
             acc.sample({"sentence": text, "tree": tree})
+        if i % 2:
+            for brokenform in (text[:-1], text.replace(")", "", 1), "(&" + text):
+                try:
+                    with cpu_limit(10):
+                        sl.LDAPFilter.from_string(brokenform)
+                except (Exception, CpuTimeout):
+                    acc.count("malformed-inputs-interleaved")
         for key, what in check_text(text, tree):
             acc.violation(key, what, {"text": text})
 
